@@ -28,12 +28,16 @@ package loading
 //@   reveal inStrs
 //@   ensures [literal_inputs_kept] err == nil ==> forall j int :: {inputs[j]} 0 <= j && j < len(inputs) && !isGlobPattern(inputs[j]) && !excludedBy(excludeInputs, inputs[j]) ==> inStrs(r, inputs[j])
 //@   ensures [patterns_expanded] err == nil ==> forall j int, x string :: {inStrs(globMatches(inputs[j]), x)} 0 <= j && j < len(inputs) && isGlobPattern(inputs[j]) && inStrs(globMatches(inputs[j]), x) && !excludedBy(excludeInputs, x) ==> inStrs(r, x)
+//@   ensures [excluded_dropped] err == nil ==> forall x string :: {inStrs(r, x)} inStrs(r, x) ==> !excludedBy(excludeInputs, x)
 //@ loop #1
 //@   invariant [resolved_so_far] (forall j int :: {inputs[j]} 0 <= j && j <= rangeindex && !isGlobPattern(inputs[j]) ==> inStrs(resolvedInputs, inputs[j])) &&
 //@        (forall j int, x string :: {inStrs(globMatches(inputs[j]), x)} 0 <= j && j <= rangeindex && isGlobPattern(inputs[j]) && inStrs(globMatches(inputs[j]), x) ==> inStrs(resolvedInputs, x))
 //@ loop #2
 //@   invariant [only_excluded_paths] forall x string :: {inStrs(excludedPaths, x)} inStrs(excludedPaths, x) ==> excludedBy(excludeInputs, x)
+//@   invariant [all_excluded_paths] forall k int, x string :: {inStrs(globMatches(excludeInputs[k]), x)} 0 <= k && k <= rangeindex && inStrs(globMatches(excludeInputs[k]), x) ==> inStrs(excludedPaths, x)
 //@ loop #3
+//@   invariant [map_complete] forall i int :: {excludedPaths[i]} 0 <= i && i <= rangeindex ==> has(excludeMap, excludedPaths[i]) && excludeMap[excludedPaths[i]]
 //@   invariant [map_from_excluded_paths] excludeMap != nil && (forall x string :: {excludeMap[x]} has(excludeMap, x) && excludeMap[x] ==> inStrs(excludedPaths, x))
 //@ loop #4
+//@   invariant [only_unexcluded] forall x string :: {inStrs(filteredInputs, x)} inStrs(filteredInputs, x) ==> !(has(excludeMap, x) && excludeMap[x])
 //@   invariant [kept_unless_excluded] forall i int :: {resolvedInputs[i]} 0 <= i && i <= rangeindex && !excludedBy(excludeInputs, resolvedInputs[i]) ==> inStrs(filteredInputs, resolvedInputs[i])
